@@ -978,6 +978,18 @@ def run(tier='quick', replay=None):
         cases = []
         meta = []
         s0c = F('9/4')
+        # deterministic witnesses of the open source-vector findings (first in the list: one per worker, generous budget), so that an
+        # obligation that fails because of a recorded defect is always accompanied by its concrete input
+        R_ = lambda a: dict(cls='R', args=[a], coq=[F(a)], tb=('T', F(0), F(a)))
+        Is_ = lambda a: dict(cls='Istep', args=[a], coq=[F(a)], tb=('N', F(a) / s0c, F(0)), src=True, skind='s')
+        Vs_ = lambda a: dict(cls='Vstep', args=[a], coq=[F(a)], tb=('T', F(a) / s0c, F(0)), src=True, skind='s')
+        shunt_ = ['Shunt', [['Par', [R_('2'), Is_('3')]]]]
+        lsec_ = ['LSection', [['Ser', [R_('2'), Vs_('5')]], ['Par', [R_('3'), Is_('3')]]]]
+        for P_, mods_, netq_ in ((shunt_, 'B', ['V2z']), (shunt_, 'A', ['V1z']), (shunt_, 'G', ['V2g']), (shunt_, 'H', ['V1h']),
+                                 (lsec_, 'Y', ['I1y']), (lsec_, 'Z', ['V1z', 'V2z', 'I2h']),
+                                 (['LSection', [['Ser', [Vs_('5'), R_('2')]], R_('3')]], '', ['V1z'])):
+            cases.append({'mode': 'twoport_src', 'tp': tp_to_impl(P_), 's0': fs(s0c), 'timeout': 400, 'tpmodels': mods_, 'netq': netq_})
+            meta.append({'kind': 'twoport_src', 'tp': P_, 's0': s0c, 'tag': 'corpus'})
         for name, mk in CORPUS:
             t = mk(s0c)
             cases.append({'mode': 'oneport', 'tree': to_impl(t), 's0': fs(s0c), 'timeout': 50})
